@@ -332,10 +332,16 @@ structure Loop where
   spacesOnly : Bool
   deriving Repr
 
-/-- the loop-invariant locals `fileContext` and `isHTML` -/
+/-- what the cases of `switch l.ctx` read of `l.base`: `fileCtx` is `l.base` itself and `isHTML`
+the value of the closure `isHTML()`. `l.base` changes only inside `lexCode`, so both are fixed
+during one `switch`; `step` computes them anew at every iteration (`fixedOf`). -/
 structure Fixed where
   fileCtx : Nat
   isHTML : Bool
+
+/-- `l.base` and `isHTML()` at the current iteration -/
+@[inline] def fixedOf (st : St) : Fixed :=
+  { fileCtx := st.lbase, isHTML := st.lbase = ContextHTML ∨ st.lbase = ContextMarkdown }
 
 inductive Out
   | cont (st : St) (lp : Loop)
@@ -490,7 +496,8 @@ def caseCSS (E : Env) (F : Fixed) (st : St) (lp : Loop) (c : UInt8) : Except Fau
   else
     -- `switch c { case '\\': …; case quote: …; case '<': … }`: the first matching case wins
     if c = 0x5c then
-      if peek E st (lp.p + 1) = some lp.quote then pure (.fall (addCol st 1) { lp with p := lp.p + 1 })
+      if peek E st (lp.p + 1) = some lp.quote ∨ peek E st (lp.p + 1) = some 0x5c then
+        pure (.fall (addCol st 1) { lp with p := lp.p + 1 })
       else pure (.fall st lp)
     else if c = lp.quote then pure (.fall { st with ctx := ContextCSS } { lp with quote := 0 })
     else if c = 0x3c then
@@ -511,7 +518,12 @@ def caseJS (E : Env) (F : Fixed) (st : St) (lp : Loop) (c : UInt8) : Except Faul
   if ← endScriptAt E F st lp c then
     pure (.fall (addCol { st with ctx := F.fileCtx } 7) { lp with p := lp.p + 7, jsComment := 0 })
   else if lp.jsComment = 1 then
-    if c = 0x0a ∨ c = 0x0d then pure (.fall st { lp with jsComment := 0 }) else pure (.fall st lp)
+    -- LF, CR, U+2028 and U+2029 terminate a line
+    if c = 0x0a ∨ c = 0x0d ∨
+        (c = 0xe2 ∧ lp.p + 2 < srcLen E st ∧ peekIs E st (lp.p + 1) 0x80 ∧
+          (peekIs E st (lp.p + 2) 0xa8 ∨ peekIs E st (lp.p + 2) 0xa9)) then
+      pure (.fall st { lp with jsComment := 0 })
+    else pure (.fall st lp)
   else if lp.jsComment = 2 then
     if c = 0x2a ∧ peekIs E st (lp.p + 1) 0x2f then
       pure (.fall (addCol st 1) { lp with p := lp.p + 1, jsComment := 0 })
@@ -529,7 +541,8 @@ def caseJS (E : Env) (F : Fixed) (st : St) (lp : Loop) (c : UInt8) : Except Faul
 def caseJSString (E : Env) (F : Fixed) (st : St) (lp : Loop) (c : UInt8) (back : Nat) (q : UInt8) :
     Except Fault CaseOut := do
   if c = 0x5c then
-    if peek E st (lp.p + 1) = some q then pure (.fall (addCol st 1) { lp with p := lp.p + 1 })
+    if peek E st (lp.p + 1) = some q ∨ peek E st (lp.p + 1) = some 0x5c then
+      pure (.fall (addCol st 1) { lp with p := lp.p + 1 })
     else pure (.fall st lp)
   else if c = q then pure (.fall { st with ctx := back } { lp with quote := 0 })
   else if c = 0x3c then
@@ -601,7 +614,7 @@ def delim (E : Env) (st : St) (lp : Loop) (which : Nat) : Except Fault Out := do
     else pure (.cont st lp)
 
 /-- one iteration of the main loop, entered with `p < len(l.src)` -/
-def step (E : Env) (F : Fixed) (st : St) (lp : Loop) : Except Fault Out := do
+def step (E : Env) (st : St) (lp : Loop) : Except Fault Out := do
   let c ← srcAt E st lp.p
   -- Markdown: spaces-only line and backslash escapes
   let lp := if st.ctx = ContextMarkdown then { lp with spacesOnly := lp.spacesOnly && isSpace c } else lp
@@ -624,25 +637,25 @@ def step (E : Env) (F : Fixed) (st : St) (lp : Loop) : Except Fault Out := do
       let st ← skip E st lp.p
       pure (.stop st lp (errorf st .unexpectedHashBrace))
     else
-      match ← ctxSwitch E F st lp c with
+      match ← ctxSwitch E (fixedOf st) st lp c with
       | .next st lp => pure (.cont st lp)
       | .fall st lp =>
         let (st, lp) := tail E st lp c
         pure (.cont st lp)
 
-def mainLoop (E : Env) (F : Fixed) : Nat → St → Loop → Except Fault (St × Loop × Option LexErr)
+def mainLoop (E : Env) : Nat → St → Loop → Except Fault (St × Loop × Option LexErr)
   | 0, _, _ => .error .other
   | fuel + 1, st, lp =>
     if lp.p < srcLen E st then do
-      match ← step E F st lp with
-      | .cont st lp => mainLoop E F fuel st lp
+      match ← step E st lp with
+      | .cont st lp => mainLoop E fuel st lp
       | .stop st lp e => pure (st, lp, some e)
     else pure (st, lp, none)
 
 /-! ## scan -/
 
 def initSt (ctx tagCtx : Nat) : St :=
-  { base := 0, line := 1, col := 1, ctx, contexts := [], tagName := [], tagAttr := [], tagIndex := 0,
+  { base := 0, line := 1, col := 1, ctx, contexts := [], bases := [], lbase := ContextText, tagName := [], tagAttr := [], tagIndex := 0,
     tagCtx, rawMarker := none, lastTok := 0, totals := 0, toks := [] }
 
 /-- the shebang line of `scan` -/
@@ -666,9 +679,8 @@ def shebang (E : Env) (st : St) : Except Fault St := do
 attribute context (which the next iteration cannot re-enter without moving) -/
 def mainFuel (E : Env) : Nat := 2 * E.text.length + 4
 
-/-- the template branch of `scan` -/
-def scanTemplateBody (E : Env) (st : St) : R := do
-  let F : Fixed := { fileCtx := st.ctx, isHTML := st.ctx = ContextHTML ∨ st.ctx = ContextMarkdown }
+/-- the template branch of `scan` after `l.base = l.ctx` -/
+def scanTemplateFrom (E : Env) (st : St) : R := do
   let lin := st.line
   let tcol := st.col
   let (p0, st) := if st.ctx = ContextMarkdown then
@@ -676,12 +688,15 @@ def scanTemplateBody (E : Env) (st : St) : R := do
       (p, { st with ctx })
     else (0, st)
   let lp : Loop := { p := p0, lin, tcol, quote := 0, emittedURL := false, jsComment := 0, spacesOnly := true }
-  match ← mainLoop E F (mainFuel E) st lp with
+  match ← mainLoop E (mainFuel E) st lp with
   | (st, _, some e) => pure (st, some e)
   | (st, lp, none) =>
     let st ← (if srcLen E st > 0 then emitAt E st lp.lin lp.tcol tokenText lp.p else pure st)
     let st ← (if st.ctx = ContextMarkdown ∧ lp.emittedURL then emit E st tokenEndURL 0 else pure st)
     pure (st, none)
+
+/-- the template branch of `scan`: `l.base = l.ctx`, then the loop -/
+def scanTemplateBody (E : Env) (st : St) : R := scanTemplateFrom E { st with lbase := st.ctx }
 
 /-- `l.scan()`: tokens in emission order and the lexer's error -/
 def scanWith (E : Env) (ctx : Nat) : Except Fault (List Tok × Option LexErr) := do
